@@ -37,10 +37,13 @@ def to_unit(rng, q):
     return GEN.reexpress(q, rng.choice(SI.units(q['k'])))
 
 
-def make_model(rng, i):
+def make_model(rng, i, lock=False):
     prof = dict(p_currents=1.0, p_continue=0.0, p_reset=0.0, n_lo=25, n_hi=80, max_stages=3, p_selflock=0.0, p_worm=0.35,
                 p_wheel_master=0.15 if i % 5 else 0.35, p_overload=0.05, p_big_overload=0.0, p_pwm_preset=0.0, p_pos_load=0.2, p_time_load=0.3)
-    spec = GEN.gen_scenario(rng, prof, force_selflock=False)
+    if lock:
+        # a self-locking chain under a load it cannot move at reduced duty cycle: instants at which the powertrain is held
+        prof.update(p_overload=0.7, p_big_overload=0.2, p_ic_zero=0.6)
+    spec = GEN.gen_scenario(rng, prof, force_selflock=True if lock else False)
     if i % 3 == 0:
         spec['load']['A'] = -abs(spec['load']['A']) - 0.05 * spec['_ref']['T_out']      # load helping the motor: negative motor load torque (defect D12's trigger)
     return spec
@@ -281,8 +284,11 @@ def direct(ctx, i, rng, case):
 
 
 def simulate(ctx, i, rng, case):
-    spec = make_model(rng, i)
     kind = ['startlim', 'reach', 'startprop', 'const', 'startlim', 'mix'][(i // 2) % 6]
+    lock = kind == 'const' and (i // 12) % 2 == 0
+    spec = make_model(rng, i, lock=lock)
+    if lock:
+        ctx.count('simulations_of_self_locking_chains')
     rules = []
     if kind == 'mix':
         # start-up rule then braking rule: windows are disjoint by construction (start target below braking start)
@@ -324,6 +330,15 @@ def simulate(ctx, i, rng, case):
     by_instant = {}
     for ent in b.rule_log:
         by_instant.setdefault(ent[0] - 1, []).append(ent)
+    n_rec = len(M['load torque'])
+    if nr and not (runs and runs[0]['exc']):
+        missing = [k for k in range(n_rec) if len(by_instant.get(k, ())) < nr]
+        ctx.count('instants_checked_for_a_rule_evaluation', n_rec)
+        if missing:
+            # a rule's window is a statement about every instant: an instant at which the rule was never asked cannot follow it
+            ctx.violation('C15:instant-without-rule-evaluation', {'instants': missing[:5], 'recorded_instants': n_rec, 'rules': rules,
+                                                                  'held_there': [M['angular speed'][k] == 0 for k in missing[:5]]}, case)
+            return
     for k in sorted(by_instant):
         if len(by_instant[k]) < nr:
             continue
@@ -341,6 +356,13 @@ def simulate(ctx, i, rng, case):
             if not compare(ctx, r, exp, got, None, dict(st, instant=k), case, 'simulation'):
                 return
             crossed.add((r['type'], exp[0]))
+            if nr == 1 and k < len(tr.pwm) and (got is None or got == got):
+                # consequence: with a single rule the recorded duty cycle IS its value (clipped), or 1 outside its window
+                want = 1 if got is None else min(max(got, -1), 1)
+                ctx.count('recorded_duty_cycle_checks')
+                if tr.pwm[k] != want:
+                    ctx.violation('C15:recorded-duty-cycle-is-not-the-rule-value', {'instant': k, 'rule_value': got, 'recorded_pwm': tr.pwm[k], 'rule': r}, case)
+                    return
             # consequence: limit current reached while StartLimitCurrent is the applied, unclipped rule
             if r['type'] == 'startlim' and got is not None and got == got and r['tach'] == 0 and nr == 1:
                 if max((i0 / imax) * (1 + 1e-6), 1e-6) < got <= 1 and tr.pwm[k] == got:
